@@ -169,6 +169,11 @@ func (vc *VC) prelude() {
 	vc.emit("(declare-fun str_concat (Str Str) Str)")
 	vc.emit("(declare-fun str_len (Str) Int)")
 	vc.emit("(declare-fun str_lt (Str Str) Bool)")
+	// Go's string comparison is a strict total order
+	vc.emit("(assert (forall ((a Str)) (! (not (str_lt a a)) :pattern ((str_lt a a)))))")
+	vc.emit("(assert (forall ((a Str) (b Str)) (! (=> (str_lt a b) (not (str_lt b a))) :pattern ((str_lt a b)))))")
+	vc.emit("(assert (forall ((a Str) (b Str) (c Str)) (! (=> (and (str_lt a b) (str_lt b c)) (str_lt a c)) :pattern ((str_lt a b) (str_lt b c)))))")
+	vc.emit("(assert (forall ((a Str) (b Str)) (! (or (str_lt a b) (str_lt b a) (= a b)) :pattern ((str_lt a b)))))")
 	vc.emit("(declare-const str_empty Str)")
 	vc.emit("(assert (= (str_len str_empty) 0))")
 	vc.emit("(assert (forall ((s Str)) (! (>= (str_len s) 0) :pattern ((str_len s)))))")
@@ -545,7 +550,8 @@ func (vc *VC) typeFacts(st *State, x string, t types.Type) string {
 			return inRange(x, t)
 		}
 		return "true"
-	case *types.Pointer, *types.Map, *types.Interface, *types.Chan, *types.Signature:
+	case *types.Pointer, *types.Map, *types.Interface, *types.Chan, *types.Signature, *types.Struct, *types.Array:
+		// struct / array values are refs to snapshots that exist in the heap of this state
 		return sx("and", sx("<=", "0", x), sx("<=", x, st.allocTop))
 	case *types.Slice:
 		return sx("and", sx("<=", "0", sx("slen", x)), sx("<=", sx("slen", x), sx("scap", x)), sx("<=", sx("scap", x), "4611686018427387904"), sx("<=", "0", sx("soff", x)),
